@@ -787,6 +787,23 @@ fn vp_native_redirect_chains_body() {
         let asked: Vec<String> = seen.iter().map(|x| format!("http://{}{}", x.host.clone().unwrap_or_default(), x.first_line.split(' ').nth(1).unwrap_or(""))).collect();
         assert_eq!(asked, want, "the URL each hop asked for (Host field + request target) against the resolved Locations");
     }
+    // a Location whose path and query carry raw UTF-8 octets (not percent-encoded): the next hop asks for exactly those octets,
+    // percent-encoded one by one, and the response reports that URL
+    {
+        let ulog = Arc::new(Mutex::new(Vec::new()));
+        let uport = serve_early(ulog.clone(), |line: &str, _p: u16| -> Vec<u8> {
+            match line.split(' ').nth(1).unwrap_or("") {
+                "/u/start" => resp(302, Some("/caf\u{e9}/m\u{fc}nchen?q=\u{e9}t\u{e9}"), ""),
+                "/caf%C3%A9/m%C3%BCnchen?q=%C3%A9t%C3%A9" => resp(307, Some("\u{4e2d}\u{6587}"), ""),
+                "/caf%C3%A9/%E4%B8%AD%E6%96%87" => resp(200, None, "end"),
+                _ => resp(404, None, "nf"),
+            }
+        });
+        let r = s.get(format!("http://127.0.0.1:{}/u/start", uport)).send().unwrap(); cases += 1; crate::verif_native_watchdog::progress();
+        let seen: Vec<String> = ulog.lock().unwrap().iter().map(|x| x.first_line.clone()).collect();
+        assert_eq!(seen, ["GET /u/start HTTP/1.1", "GET /caf%C3%A9/m%C3%BCnchen?q=%C3%A9t%C3%A9 HTTP/1.1", "GET /caf%C3%A9/%E4%B8%AD%E6%96%87 HTTP/1.1"], "request targets after Locations with raw UTF-8 octets");
+        assert_eq!((r.status().as_u16(), r.url().path()), (200, "/caf%C3%A9/%E4%B8%AD%E6%96%87"));
+    }
     println!("VP-NATIVE redirect_chains cases={}", cases);
 }
 
